@@ -482,6 +482,26 @@ class SStr(Sym):
         parts.append(mk(cur))
         return parts
 
+    def partition(self, sep):
+        i = self.find(sep)
+        if i < 0:
+            return (self, '', '')
+        n = len(cells_of(sep))
+        return (mk(self.cells[:i]), sep, mk(self.cells[i + n:]))
+
+    def rpartition(self, sep):
+        i = self.rfind(sep)
+        if i < 0:
+            return ('', '', self)
+        n = len(cells_of(sep))
+        return (mk(self.cells[:i]), sep, mk(self.cells[i + n:]))
+
+    def __getattr__(self, name):
+        # a str method the proxy does not model: outside the encoding (undecided), never an AttributeError of the program
+        if not name.startswith('_') and hasattr(str, name):
+            raise OutOfSubset('str.%s on a shape-typed string' % name)
+        raise AttributeError(name)
+
     def replace(self, old, new, count=-1):
         if isinstance(old, SStr) or isinstance(new, SStr):
             raise OutOfSubset('replace with symbolic arguments')
